@@ -5,13 +5,15 @@ use crate::Check;
 use serde_json::{json, Value};
 
 pub mod c02;
+pub mod conf;
 pub mod gens;
+pub mod hist;
 pub mod misc;
 pub mod ops;
 pub mod trav;
 pub mod weighted;
 
-pub const ALL: &[&str] = &["C02", "C03", "C04", "C05", "C06", "C07", "C08", "C09", "C10", "C11", "C12", "C14", "C15", "C16", "C18", "C19"];
+pub const ALL: &[&str] = &["C01", "C02", "C03", "C04", "C05", "C06", "C07", "C08", "C09", "C10", "C11", "C12", "C14", "C15", "C16", "C17", "C18", "C19", "C20"];
 
 pub fn report(prop: &str, tier: &str, seed: u64, rule: &str, assumptions: &[&str], bounds: Value) -> Report {
     Report {
@@ -27,6 +29,8 @@ pub fn report(prop: &str, tier: &str, seed: u64, rule: &str, assumptions: &[&str
 
 pub fn build(prop: &str, tier: &str, seed: u64) -> Option<Check> {
     match prop {
+        "C01" => Some(hist::c01(tier, seed)),
+        "C20" => Some(hist::c20(tier, seed)),
         "C02" => Some(c02::build(tier, seed)),
         "C03" => Some(weighted::c03(tier, seed)),
         "C04" => Some(trav::c04(tier, seed)),
@@ -41,13 +45,45 @@ pub fn build(prop: &str, tier: &str, seed: u64) -> Option<Check> {
         "C14" => Some(gens::c14(tier, seed)),
         "C15" => Some(gens::c15(tier, seed)),
         "C16" => Some(gens::c16(tier, seed)),
+        "C17" => Some(conf::c17(tier, seed)),
         "C18" => Some(misc::c18(tier, seed)),
         "C19" => Some(misc::c19(tier, seed)),
         _ => None,
     }
 }
 
-pub fn replay_post(_prop: &str, _case: &CaseId, _file: &Value) -> i32 {
-    eprintln!("gv: no post-phase replay for this property");
+pub fn replay_post(prop: &str, case: &CaseId, file: &Value) -> i32 {
+    if case.kind.starts_with("post:hist") {
+        crate::core::silence_panics();
+        let rc = hist::replay(file);
+        if rc == 1 {
+            println!("VIOLATION property={prop} replay=(given file)");
+        }
+        return rc;
+    }
+    if case.kind == "post:sched" {
+        let path = std::env::args().nth(3).unwrap_or_default();
+        let st = std::process::Command::new("/verif/engine/target-sched/release/gv").args(["sched-replay", &path]).status();
+        let rc = st.ok().and_then(|s| s.code()).unwrap_or(2);
+        if rc == 1 {
+            println!("VIOLATION property={prop} replay={path}");
+        }
+        return rc;
+    }
+    if case.kind == "post:affinity" {
+        let mut ctx = crate::core::Ctx::default();
+        let ks: Vec<usize> = case.p.iter().map(|&k| k as usize).collect();
+        let _ = conf::affinity_only(&ks, &mut ctx);
+        if ctx.fails.is_empty() {
+            println!("affinity conformance for k = {ks:?}: digests equal");
+            return 0;
+        }
+        for f in &ctx.fails {
+            println!("  {}", f.what);
+        }
+        println!("VIOLATION property={prop} replay=(given file)");
+        return 1;
+    }
+    eprintln!("gv: no post-phase replay for this case kind");
     2
 }
